@@ -13,7 +13,7 @@
      interleaved at the acquisition of the pool lock (everything read before is stale) — the invariant must still hold.
 Outside: uniqueness of noise session ids (snow), the accept loops, TCP-level behaviour.
 """
-import time
+import re, time
 import z3
 from mirsym.core import (Exec, explore, solve, Num, Agg, Ref, Cell, Opaque, Panic, Unmodelled, num_cmp, b_and, to_z3_bool, UNIT)
 from mirsym import env, models as M
@@ -302,6 +302,86 @@ def check_pool(rep, db, op, interfere):
     return viol, len(res)
 
 
+def check_pool_history(rep, db, max_ops):
+    """Representation-independent pool check: the pool is built by the REAL `PoolWatch::new`, driven by a sequence of up to
+    `max_ops` real insert / remove operations with keys from KEYSET (2 allowed, 2 others) and a symbolic quota; a ghost
+    set of admitted keys is kept by the specification (insert succeeds iff the key is absent and is either allowed or the
+    number of admitted non-allowed keys is below the quota; remove deletes the key). After EVERY operation the result and
+    the keys reported by the real pool must equal the ghost. Unlike the one-step check this does not depend on how the pool
+    represents its bookkeeping (e.g. a derived counter)."""
+    ex = Exec(db, loop_bound=16); ex.hash_order_insertion = True
+    cur = [None]
+    install_pool(ex, db, lambda: cur[0])
+    ins = db.find(r'zksync_consensus_network::pool::PoolWatch::<.*>::insert', kinds=('inst',))
+    if not ins: raise Unmodelled('no PoolWatch instances in the dump')
+    ins_key = sorted(ins, key=lambda k: db.by_key[k][4])[0]
+    prefix = db.by_key[ins_key][4].split('::insert')[0]
+    def inst(meth):
+        ks = [k for k in db.find(re.escape(prefix) + '::' + meth, kinds=('inst',)) if db.by_key[k][4].split('::' + meth)[0] == prefix and '{closure' not in db.by_key[k][4]]
+        if not ks: raise Unmodelled(f'no instance of {prefix}::{meth} in the dump')
+        return ks[0]
+    rem_key = inst('remove'); new_key = inst('new')
+    rec = db.body(ins_key)
+    pw_t = db.ty(rec['crate'], db.ty(rec['crate'], rec['body']['locals'][1]['ty'])['info']['to'])
+    watch_t = db.ty(rec['crate'], pw_t['info']['variants'][0]['fields'][0]['ty'])
+    wfs = watch_t['info']['variants'][0]['fields']
+    ex.model(r'zksync_consensus_network::watch::Watch::<.*>::new', lambda e, n, a: Agg('adt', watch_t, 0, [M.WatchV(a[0])] + [Opaque('w')] * (len(wfs) - 1)))
+    mine = ex.user_models[-1:]; del ex.user_models[-1:]; ex.user_models[0:0] = mine; ex._um_cache = {}
+    allowed_names = {k for k, al in KEYSET if al}
+
+    def body(ex):
+        st = dict(interfere=False, insert_key=ins_key); cur[0] = st
+        limit = ex.fresh('extra_limit'); ex.assume(limit.e <= 3)
+        allowed = MapV([(Opaque(('key', k)), UNIT) for k, al in KEYSET if al], False, 'set')
+        pw = ex.call_key(new_key, [allowed, limit])
+        watch = find_watch(pw)
+        ghost = []; events = []
+        n_ops = 1 + ex.choose(max_ops, 'n_ops')
+        for i in range(n_ops):
+            is_ins = ex.choose(2, f'op{i}') == 0
+            kname, kal = KEYSET[ex.choose(len(KEYSET), f'key{i}')]
+            if is_ins:
+                r = coro.run_async(ex, ins_key, [Ref(Cell(pw)), Opaque(('key', kname)), Opaque(('conn', kname, i))])
+                if r == 'pending': return None
+                extras = sum(1 for k in ghost if k not in allowed_names)
+                should = (kname not in ghost) and (True if kal else None)
+                if kname in ghost: want = z3.BoolVal(False)
+                elif kal: want = z3.BoolVal(True)
+                else: want = limit.e > extras
+                got_ok = r.variant == 0
+                events.append(('insert', kname, got_ok, want, None))
+                if got_ok: ghost = ghost + [kname] if kname not in ghost else ghost + [kname]
+            else:
+                r = coro.run_async(ex, rem_key, [Ref(Cell(pw)), Ref(Cell(Opaque(('key', kname))))])
+                if r == 'pending': return None
+                ghost = [k for k in ghost if k != kname]
+                events.append(('remove', kname, True, z3.BoolVal(True), None))
+            pool = watch.cell.v
+            keys_now = sorted(k.tag[1] for k, c in fld(pool, 'current').entries)
+            events[-1] = events[-1][:4] + (keys_now,)
+            events[-1] = events[-1] + (sorted(ghost),)
+        return limit, events
+    res = explore(ex, body, budget_s=1200); rep.absorb_stats(ex.stats)
+    viol = []
+    for kind, val, pc, log in res:
+        if kind == 'panic':
+            st_, m = solve(pc, None)
+            if st_ == 'sat': viol.append((panic_key(val), f'PoolWatch panics after a sequence of inserts / removes: {val[0]} at {val[1]}', m))
+            continue
+        if val is None: continue
+        limit, events = val; rep.nontrivial += 1
+        conds = []
+        for op, kname, got_ok, want, keys_now, ghost in events:
+            conds.append(want if got_ok else z3.Not(want))
+            conds.append(z3.BoolVal(keys_now == ghost))
+        st_, m = solve(pc, z3.Not(z3.And(*conds)))
+        if st_ == 'sat':
+            trace = '; '.join(f'{op}({k})->{"Ok" if g else "Err"} pool={kn}' for op, k, g, w, kn, gh in events)
+            viol.append(('pool-history', f'a sequence of real PoolWatch operations admits or refuses differently from the specification (one entry per key; keys outside the allowed set only up to the quota; only allowed keys with quota 0): {trace}', m))
+        elif st_ != 'unsat': raise Unmodelled('solver unknown')
+    return viol, len(res)
+
+
 def witness(m):
     if m is None: return ''
     return 'witness: ' + ', '.join(f'{d.name()}={m[d]}' for d in sorted(m.decls(), key=lambda d: d.name()) if d.arity() == 0 and '!' not in d.name())[:400]
@@ -332,6 +412,7 @@ def run(rep, db, tier, seed):
     handle('PoolWatch::insert one step', check_pool, 'insert', False)
     handle('PoolWatch::remove one step', check_pool, 'remove', False)
     handle('PoolWatch::insert with an interfering insert', check_pool, 'insert', True)
+    handle(f'PoolWatch histories from PoolWatch::new (<= {3 if tier == "quick" else 4} operations) against the admission specification', check_pool_history, 3 if tier == 'quick' else 4)
     try:
         from props import c12_pools
         c12_pools.run(rep, db, tier)
